@@ -6,11 +6,16 @@
   `f<bits>`.  Nothing the real code rejects is defaulted: malformed or rejected
   operations answer `err:<kind>`.
 -/
-import BC.Num
-import BC.Gen.Units
 import Driver.Ops
 
-open BC
+open BC Driver
+
+def allOps : List (String × P String) := Driver.table
+
+def dispatch (op : String) (args : List String) : String :=
+  match allOps.find? (·.1 == op) with
+  | some (_, p) => runP p args
+  | none => "err:badop"
 
 partial def loop (h : IO.FS.Stream) (out : IO.FS.Stream) : IO Unit := do
   let line ← h.getLine
@@ -18,7 +23,7 @@ partial def loop (h : IO.FS.Stream) (out : IO.FS.Stream) : IO Unit := do
   let toks := (line.trimAscii.toString.splitOn " ").filter (· ≠ "")
   let ans := match toks with
     | [] => "err:empty"
-    | op :: args => Driver.dispatch op args
+    | op :: args => dispatch op args
   out.putStrLn ans
   loop h out
 
